@@ -1,9 +1,15 @@
 //! Registry of checks: property id -> parts (sub-check, build profile), worker, info, replay.
 
+pub mod arith;
+pub mod bccheck;
 pub mod budget;
 pub mod diverge;
 pub mod equiv;
+pub mod expr;
 pub mod iofault;
+pub mod parser;
+pub mod smallvec;
+pub mod tape;
 
 use hshim::exec::Backend;
 
@@ -12,7 +18,9 @@ use crate::json::J;
 
 pub fn parts(prop: &str) -> Option<Vec<(String, &'static str)>> {
     Some(match prop {
-        "C01" | "C03" | "C04" | "C05" | "C07" | "C08" => vec![(prop.to_string(), "release")],
+        "C01" | "C03" | "C04" | "C05" | "C07" | "C08" | "C09" | "C11" | "C12" | "C14" | "C15" | "C18" => {
+            vec![(prop.to_string(), "release")]
+        }
         "C02" => vec![("C02.release".into(), "release"), ("C02.relda".into(), "relda")],
         _ => return None,
     })
@@ -28,6 +36,12 @@ pub fn worker(ctx: &mut WorkerCtx) {
         "C05" => diverge::worker(ctx),
         "C07" => budget::worker(ctx),
         "C08" => iofault::worker(ctx),
+        "C09" => tape::worker(ctx),
+        "C11" => bccheck::worker(ctx),
+        "C12" => parser::worker(ctx),
+        "C14" => arith::worker(ctx),
+        "C15" => expr::worker(ctx),
+        "C18" => smallvec::worker(ctx),
         other => {
             eprintln!("unknown check {other}");
             std::process::exit(2);
@@ -44,6 +58,12 @@ pub fn info(prop: &str, tier: Tier) -> CheckInfo {
         "C05" => diverge::info(tier),
         "C07" => budget::info(tier),
         "C08" => iofault::info(tier),
+        "C09" => tape::info(tier),
+        "C11" => bccheck::info(tier),
+        "C12" => parser::info(tier),
+        "C14" => arith::info(tier),
+        "C15" => expr::info(tier),
+        "C18" => smallvec::info(tier),
         _ => unreachable!(),
     }
 }
@@ -52,6 +72,12 @@ pub fn info(prop: &str, tier: Tier) -> CheckInfo {
 pub fn replay(j: &J) -> (bool, String) {
     match j.str("kind") {
         Some("exec") => replay_exec(j),
+        Some("parse") => parser::replay(j, Tier::parse(j.str("tier").unwrap_or("quick")).unwrap_or(Tier::Quick)),
+        Some("arith") => arith::replay(j),
+        Some("tape") => tape::replay_case(j),
+        Some("smallvec") => smallvec::replay_case(j),
+        Some("expr") => expr::replay_case(j),
+        Some("bytecode") => bccheck::replay_case(j),
         Some("case") => {
             let sub = j.str("check").unwrap_or("");
             let tier = Tier::parse(j.str("tier").unwrap_or("quick")).unwrap_or(Tier::Quick);
